@@ -911,6 +911,119 @@ def main(run):
                 if rng.random() < 0.6:
                     kargs["ARG%d" % j] = rng.choice(pool_names if rng.random() < 0.3 else pool_names[:6])
             rename_case(n, kargs)
+
+        # ------------------------------------------------------------------ building primitive sets (mapping / context keys)
+        def build_case(prefix, tys, ops):
+            """ops: list of (kind, name_or_value, args, ret) applied to a fresh PrimitiveSetTyped"""
+            rev = {v: k for k, v in TYPE_IDS.items()}
+            ps = gp.PrimitiveSetTyped("B", [rev[t] for t in tys], object, prefix)
+            sp = Spec.__new__(Spec)
+            sp.gp, sp.pset = gp, ps
+            sp.argterms = [ps.mapping[a] for a in ps.arguments]
+            cops = []
+            ok = True
+            for kind, x, args, ret in ops:
+                try:
+                    with warnings.catch_warnings():
+                        warnings.simplefilter("ignore")
+                        if kind == "prim":
+                            ps.addPrimitive(lambda *a: 0, [rev[t] for t in args], rev[ret], name=x)
+                            cops.append("(BPrim %s %s %s)" % (cstr(x), cnatl(args), cnat(ret)))
+                        elif kind == "adf":
+                            sub = gp.PrimitiveSetTyped(x, [rev[t] for t in args], rev[ret])
+                            ps.addADF(sub)
+                            cops.append("(BAdf %s %s %s)" % (cstr(x), cnatl(args), cnat(ret)))
+                        elif kind == "const":
+                            ps.addTerminal(x, rev[ret])
+                            cops.append("(BConst %s %s)" % (c_cst(x), cnat(ret)))
+                        elif kind == "named":
+                            ps.addTerminal(12345, rev[ret], name=x)
+                            cops.append("(BNamed %s %s)" % (cstr(x), cnat(ret)))
+                        else:
+                            ps.addEphemeralConstant(x, functools.partial(int, 3), rev[ret])
+                            cops.append("(BEph %s %s)" % (cstr(x), cnat(ret)))
+                except Exception:  # noqa  (AssertionError / Exception / AttributeError of the add* methods)
+                    cops.append({"prim": "(BPrim %s %s %s)" % (cstr(x), cnatl(args), cnat(ret)),
+                                 "named": "(BNamed %s %s)" % (cstr(x), cnat(ret)),
+                                 "eph": "(BEph %s %s)" % (cstr(x), cnat(ret))}[kind])
+                    ok = False
+                    break
+            case = {"kind": "build", "prefix": prefix, "in_types": tys, "ops": [(k, repr(x)) for k, x, _, _ in ops], "ok": ok}
+            run.note_case(case, True)
+            try:
+                if ok:
+                    names = [k for k in ps.context if k != "__builtins__"]
+                    obs = "(Some (%s, %s))" % (sp.c_pset(), clist([cstr(k) for k in names]))
+                else:
+                    obs = "None"
+                add("misc", "CBuild %s %s %s %s" % (cstr(prefix), cnatl(tys), clist(cops), obs), case)
+            except Unsupported:
+                pass
+
+        build_case("ARG", [], [])
+        build_case("ARG", [1, 3, 0], [("prim", "add", [1, 1], 1), ("const", True, [], 3), ("const", 1, [], 1), ("const", 0.0, [], 2),
+                                      ("const", -0.0, [], 2), ("const", "ab", [], 4), ("named", "pi", [], 2), ("eph", "e", [], 1),
+                                      ("adf", "ADF0", [1], 1)])
+        build_case("x", [1] * 12, [("prim", "f", [1], 1), ("prim", "f", [1], 1)])
+        build_case("A", [1], [("named", "n", [], 1), ("prim", "n", [1], 1)])
+        build_case("A", [1], [("prim", "n", [1], 1), ("named", "n", [], 1)])
+        build_case("A", [1], [("eph", "e", [], 1), ("eph", "e", [], 1)])
+        build_case("A", [1], [("prim", "e", [1], 1), ("eph", "e", [], 1)])
+        build_case("A", [1], [("const", True, [], 3), ("named", "True", [], 3)])
+        build_case("A", [1, 1], [("prim", "A0", [1], 1), ("adf", "A1", [1], 1)])
+        name_pool = ["f", "g", "h", "pi", "e", "A0", "k9"]
+        val_pool = [0, 1, -1, 2, 7, True, False, 0.5, 1.0, 0.0, -2.5, "ab", "q"]
+        for _ in range(run.scale(60, 600)):
+            tys = [rng.choice([0, 1, 2, 3]) for _ in range(rng.randint(0, 3))]
+            ops = []
+            for _ in range(rng.randint(0, 7)):
+                kind = rng.choice(["prim", "prim", "adf", "const", "const", "named", "eph"])
+                if kind == "const":
+                    v = rng.choice(val_pool)
+                    ret = {bool: 3, int: 1, float: 2, str: 4}[type(v)]
+                    ops.append((kind, v, [], ret))
+                else:
+                    ops.append((kind, rng.choice(name_pool), [rng.choice([0, 1, 2]) for _ in range(rng.randint(0, 3))], rng.choice([0, 1, 2])))
+            build_case(rng.choice(["ARG", "A", "in_"]), tys, ops)
+
+        # ------------------------------------------------------------------ exhaustive small scope
+        # every well-formed prefix list with at most N nodes over {k0/0, neg/1, sub/2, ite/3, ARG0, ARG1, 1, -2}
+        ex = Spec(gp, "MAIN", [object, object], object, True)
+        ex.rawprim(lambda: 7, [], object, "k0", "(OpK 7)")
+        ex.rawprim(operator.neg, [object], object, "neg", "OpNeg")
+        ex.rawprim(operator.sub, [object, object], object, "sub", "OpSub")
+        ex.rawprim(_ite, [object, object, object], object, "ite", "OpIte")
+        ex.const(1, object)
+        ex.const(-2, object)
+        ex.label = "exhaustive"
+        alphabet_nodes = [ex.pset.mapping[k] for k in ("k0", "neg", "sub", "ite", "ARG0", "ARG1", "1", "-2")]
+        leaves = [n for n in alphabet_nodes if n.arity == 0]
+        inner = [n for n in alphabet_nodes if n.arity > 0]
+
+        def forests(k, budget):
+            """all lists of k trees (as flat node lists) using at most budget nodes"""
+            if k == 0:
+                yield []
+                return
+            if budget < k:
+                return
+            for n in leaves:
+                for rest in forests(k - 1, budget - 1):
+                    yield [n] + rest
+            for n in inner:
+                for kids in forests(n.arity, budget - 1 - (k - 1)):
+                    used = 1 + len(kids)
+                    for rest in forests(k - 1, budget - used):
+                        yield [n] + kids + rest
+
+        nmax = run.scale(4, 6)
+        ex_tuples = [(3, -5), (0, 2)]
+        count = 0
+        for nodes in forests(1, nmax):
+            count += 1
+            if nmax >= 6 and len(nodes) == 6 and count % 3:
+                continue        # thin the largest layer
+            check_tree(ex, gp.PrimitiveTree(nodes), "exhaustive<=%d" % nmax, ex_tuples)
     finally:
         gp.random = saved_random
 
